@@ -10,6 +10,7 @@ import (
 	"regexp"
 	"sort"
 	"strings"
+	"time"
 
 	sdkmath "cosmossdk.io/math"
 	sdk "github.com/cosmos/cosmos-sdk/types"
@@ -17,10 +18,12 @@ import (
 
 	dakeeper "github.com/sunriselayer/sunrise/x/da/keeper"
 	datypes "github.com/sunriselayer/sunrise/x/da/types"
+	likeeper "github.com/sunriselayer/sunrise/x/liquidityincentive/keeper"
 	litypes "github.com/sunriselayer/sunrise/x/liquidityincentive/types"
 	lpkeeper "github.com/sunriselayer/sunrise/x/liquiditypool/keeper"
 	lptypes "github.com/sunriselayer/sunrise/x/liquiditypool/types"
 	sdtypes "github.com/sunriselayer/sunrise/x/selfdelegation/types"
+	sckeeper "github.com/sunriselayer/sunrise/x/shareclass/keeper"
 	sctypes "github.com/sunriselayer/sunrise/x/shareclass/types"
 	swaptypes "github.com/sunriselayer/sunrise/x/swap/types"
 	tctypes "github.com/sunriselayer/sunrise/x/tokenconverter/types"
@@ -59,6 +62,10 @@ type world struct {
 	byKey    map[string]method
 	orc      shape.Oracles
 	valBytes []byte
+	// notes of best-effort setup steps that failed (reported in stats)
+	setupNotes []string
+	// pool 4: the amount of base whose sale moves the price to (or just past) the edge tick -20
+	edgeAmount int64
 }
 
 func must(err error) {
@@ -67,31 +74,122 @@ func must(err error) {
 	}
 }
 
-// setup builds the application state the handlers run against: two pools with positions
-// (urise/uusdc id 0, uusdc/uatom id 1), one published DA item, and the value pools.
+// setup builds the application state the handlers run against.  Liquidity pools in several
+// states (the queries are driven with boundary values read from them, see probe.go):
+//
+//	0 urise/uusdc, 1 uusdc/uatom  base offset 0.5, one wide position each (price between ticks)
+//	2 uatom/uosmo   base offset 0, first position with equal amounts: price exactly 1 = tick 0,
+//	                second position starting at tick 0 (the price sits on an initialised tick)
+//	3 urise/uatom   created, never had a position (no liquidity, sqrt price 0)
+//	4 urise/uosmo   base offset 0, a narrow and a wide position; the amount of base that carries the
+//	                price across the narrow position's lower tick is found by bisection
+//	5 uusdc/uosmo   had one position which was removed completely (emptied pool)
+//
+// plus a gauge vote, a non-voting delegation, a published and a challenged DA item, a few blocks.
 func setup() *world {
 	h := apph.New(apph.Options{NumAccounts: 4})
 	w := &world{h: h}
 	ctx := h.Ctx()
 	a0 := h.Accts[0].Addr.String()
 	lp := lpkeeper.NewMsgServerImpl(h.App.LiquiditypoolKeeper)
-	mkPool := func(base, quote string) {
+	mkPool := func(base, quote, offset string) {
 		must(apph.Tx(ctx, func(ctx sdk.Context) error {
 			_, err := lp.CreatePool(ctx, &lptypes.MsgCreatePool{Authority: a0, DenomBase: base, DenomQuote: quote,
-				FeeRate: "0.01", PriceRatio: "1.0001", BaseOffset: "0.5"})
+				FeeRate: "0.01", PriceRatio: "1.0001", BaseOffset: offset})
 			return err
 		}))
 	}
-	mkPool("urise", "uusdc")
-	mkPool("uusdc", "uatom")
-	for id := uint64(0); id < 2; id++ {
-		denoms := [][2]string{{"urise", "uusdc"}, {"uusdc", "uatom"}}[id]
+	mkPos := func(id uint64, lo, hi int64, base, quote int64) uint64 {
+		var pid uint64
 		must(apph.Tx(ctx, func(ctx sdk.Context) error {
-			_, err := lp.CreatePosition(ctx, &lptypes.MsgCreatePosition{Sender: a0, PoolId: id, LowerTick: -1000, UpperTick: 1000,
-				TokenBase: sdk.NewInt64Coin(denoms[0], 1_000_000_000), TokenQuote: sdk.NewInt64Coin(denoms[1], 1_000_000_000),
+			res, err := lp.CreatePosition(ctx, &lptypes.MsgCreatePosition{Sender: a0, PoolId: id, LowerTick: lo, UpperTick: hi,
+				TokenBase: sdk.NewInt64Coin(allPoolDenoms[id][0], base), TokenQuote: sdk.NewInt64Coin(allPoolDenoms[id][1], quote),
 				MinAmountBase: sdkmath.ZeroInt(), MinAmountQuote: sdkmath.ZeroInt()})
+			if err == nil {
+				pid = res.Id
+			}
 			return err
 		}))
+		return pid
+	}
+	for id, d := range allPoolDenoms {
+		mkPool(d[0], d[1], []string{"0.5", "0.5", "0", "0.5", "0", "0"}[id])
+	}
+	mkPos(0, -1000, 1000, 1_000_000_000, 1_000_000_000)
+	mkPos(1, -1000, 1000, 1_000_000_000, 1_000_000_000)
+	mkPos(2, -10, 10, 10_000, 10_000)
+	mkPos(2, 0, 50, 10_000, 10_000) // tick 0 becomes an initialised tick while the price sits exactly on it
+	mkPos(4, -20, 20, 1_000_000, 1_000_000)
+	// pool 4: a second, wide position; then sell exactly as much base as moves the price onto the
+	// lower edge of the narrow position (an initialised tick): found by bisection on the amount
+	mkPos(4, -500, 500, 5_000_000, 5_000_000)
+	{
+		k := h.App.LiquiditypoolKeeper
+		p4, _, err := k.GetPool(ctx, 4)
+		must(err)
+		target, err := lptypes.TickToSqrtPrice(-20, p4.TickParams)
+		must(err)
+		after := func(amount int64) sdkmath.LegacyDec {
+			cctx, _ := ctx.CacheContext()
+			if cls, det := guard(func() error {
+				_, err := k.SwapExactAmountIn(cctx, h.Accts[1].Addr, p4, sdk.NewInt64Coin("urise", amount), "uosmo", true)
+				return err
+			}); cls != clsOk {
+				if cls == clsPanic {
+					w.setupNotes = append(w.setupNotes, fmt.Sprintf("pool 4: keeper swap of %d urise panicked: %s", amount, det))
+				}
+				return sdkmath.LegacyDec{}
+			}
+			q, _, _ := k.GetPool(cctx, 4)
+			return sdkmath.LegacyMustNewDecFromStr(q.CurrentSqrtPrice)
+		}
+		lo, hi := int64(1), int64(100_000_000)
+		for lo < hi {
+			mid := (lo + hi) / 2
+			if sp := after(mid); !sp.IsNil() && sp.GT(target) {
+				lo = mid + 1
+			} else {
+				hi = mid
+			}
+		}
+		w.edgeAmount = lo
+		if sp := after(lo); !sp.IsNil() && sp.Equal(target) {
+			must(apph.Tx(ctx, func(ctx sdk.Context) error {
+				_, err := k.SwapExactAmountIn(ctx, h.Accts[1].Addr, p4, sdk.NewInt64Coin("urise", lo), "uosmo", true)
+				return err
+			}))
+		} else {
+			w.setupNotes = append(w.setupNotes, fmt.Sprintf("pool 4: no amount moves the price exactly onto tick -20 (closest %d)", lo))
+		}
+	}
+	// pool 5: a position that is removed again
+	p5 := mkPos(5, -50, 50, 500_000, 500_000)
+	must(apph.Tx(ctx, func(ctx sdk.Context) error {
+		pos, _, err := h.App.LiquiditypoolKeeper.GetPosition(ctx, p5)
+		if err != nil {
+			return err
+		}
+		_, err = lp.DecreaseLiquidity(ctx, &lptypes.MsgDecreaseLiquidity{Sender: a0, Id: p5, Liquidity: pos.Liquidity})
+		return err
+	}))
+	// a gauge vote and a non-voting delegation (best effort: they only enrich the state)
+	vals0, err := h.App.StakingKeeper.GetAllValidators(ctx)
+	must(err)
+	for _, f := range []func(ctx sdk.Context) error{
+		func(ctx sdk.Context) error {
+			_, err := likeeper.NewMsgServerImpl(h.App.LiquidityincentiveKeeper).VoteGauge(ctx, &litypes.MsgVoteGauge{Sender: a0,
+				PoolWeights: []litypes.PoolWeight{{PoolId: 0, Weight: "0.6"}, {PoolId: 2, Weight: "0.4"}}})
+			return err
+		},
+		func(ctx sdk.Context) error {
+			_, err := sckeeper.NewMsgServerImpl(h.App.ShareclassKeeper).NonVotingDelegate(ctx, &sctypes.MsgNonVotingDelegate{
+				Sender: h.Accts[1].Addr.String(), ValidatorAddress: vals0[0].OperatorAddress, Amount: sdk.NewInt64Coin("urise", 5_000_000)})
+			return err
+		},
+	} {
+		if err := apph.Tx(ctx, f); err != nil {
+			w.setupNotes = append(w.setupNotes, "setup step failed: "+err.Error())
+		}
 	}
 	da := dakeeper.NewMsgServerImpl(h.App.DaKeeper)
 	must(apph.Tx(ctx, func(ctx sdk.Context) error {
@@ -122,6 +220,13 @@ func setup() *world {
 	must(h.App.DaKeeper.SetPublishedData(ctx, datypes.PublishedData{MetadataUri: "ipfs://challenged", ParityShardCount: 1,
 		ShardDoubleHashes: [][]byte{{1, 2, 3}, {4, 5, 6}, {7, 8, 9}}, Timestamp: h.Time, Status: datypes.Status_STATUS_CHALLENGING,
 		Publisher: a0, PublishedTimestamp: h.Time}))
+	// a few blocks: epochs and gauges of x/liquidityincentive come into existence
+	for i := 0; i < 12; i++ {
+		if _, err := h.NextBlock(time.Second); err != nil {
+			w.setupNotes = append(w.setupNotes, "block failed: "+err.Error())
+			break
+		}
+	}
 	acc := h.App.AuthKeeper.AddressCodec()
 	valc := h.App.StakingKeeper.ValidatorAddressCodec()
 	gov := authtypes.NewModuleAddress("gov")
@@ -394,7 +499,7 @@ func mixSeed(seed int64) int64 {
 	return int64(z ^ (z >> 31))
 }
 
-const rule = "a case is non-trivial when the input got past the first validation of the function under test: memo = " +
+const rule = "a case is non-trivial when the input got past the first validation of the function under test (for LiquidityBase/Quote: the two prices are equal or one ulp apart): memo = " +
 	"encoding/json accepted it; route = not a nil pointer; metadata = the route was accepted; service method = accepted, or " +
 	"rejected although the first validated field was valid. Distinct by (function, mutation kind, outcome class)"
 
@@ -469,6 +574,23 @@ func Run(seed int64, n int, outDir string) error {
 	for _, c := range w.corpusHeads() {
 		doHead(c.key, c.req, "corpus:"+c.tag)
 	}
+	// state-dependent boundary requests: every query of every module, the tick / id / amount messages
+	for _, c := range w.mustProbes() {
+		doHead(c.key, c.req, c.tag)
+	}
+	view := w.view()
+	doLiq := func(base bool, amount sdkmath.Int, a, b sdkmath.LegacyDec) {
+		term, info, k := w.runLiq(base, amount, a, b)
+		st.Count(k)
+		add(term, info)
+		if a.Equal(b) || a.Sub(b).Abs().Equal(sdkmath.LegacySmallestDec()) {
+			st.Nontriv(fmt.Sprintf("liq/%v/edge/%s", base, k))
+		}
+	}
+	for _, base := range []bool{true, false} {
+		doLiq(base, sdkmath.NewInt(1000), sdkmath.LegacyOneDec(), sdkmath.LegacyOneDec())
+		doLiq(base, sdkmath.NewInt(1000), sdkmath.LegacyOneDec(), sdkmath.LegacyOneDec().Add(sdkmath.LegacySmallestDec()))
+	}
 	for _, rate := range feeRates {
 		term, info, classes := w.runFee(rate)
 		for _, k := range classes {
@@ -499,7 +621,12 @@ func Run(seed int64, n int, outDir string) error {
 		case k < 50:
 			m, tag := w.genMetaCase(r)
 			doMeta(m, tag)
-		case k < 82: // structured: valid base, usually with one damaged field
+		case k < 62: // boundary grid over the states of the world
+			c := w.genProbe(r, &view)
+			doHead(c.key, c.req, c.tag)
+		case k < 66:
+			doLiq(w.genLiq(r, &view))
+		case k < 88: // structured: valid base, usually with one damaged field
 			m := w.ms[r.Intn(len(w.ms))]
 			req := w.base(r, m.Key())
 			if req == nil {
@@ -520,5 +647,10 @@ func Run(seed int64, n int, outDir string) error {
 		return err
 	}
 	st.Extra["methods"] = len(w.ms)
+	st.Notes = append(st.Notes, w.setupNotes...)
+	for _, pv := range view.pools {
+		st.Notes = append(st.Notes, fmt.Sprintf("pool %d %s/%s: tick %d sqrt price %s liquidity %s", pv.pool.Id, pv.pool.DenomBase, pv.pool.DenomQuote,
+			pv.pool.CurrentTick, pv.pool.CurrentSqrtPrice, pv.pool.CurrentTickLiquidity))
+	}
 	return st.Write(outDir)
 }
